@@ -300,6 +300,58 @@ def wl_expand_sweep(ctx, rng, case):
     case.nontrivial = True
 
 
+def wl_small_fingerprints(ctx, rng, case):
+    """counting filter, one or two buckets, one-byte fingerprints: keys whose fingerprint is as small as a bin COUNT (1..6) share a bucket
+    with ordinary keys that were added that many times; additions and complete removals in every order - no key that was added and not
+    removed may ever be reported absent, no removal may take another key along"""
+    import probables as P
+
+    cfg = ck.Cfg(True, rng.choice([1, 1, 2]), rng.choice([6, 8, 12]), 5, 1, False, 2, "library_default", None)
+    small = {}
+    for i in range(6000):
+        k = f"t{i}"
+        fp = cfg.raw_fp(k)
+        if 1 <= fp <= 6 and fp not in small:
+            small[fp] = k
+        if len(small) == 6:
+            break
+    others = [k for k in (f"j{i}" for i in range(40)) if cfg.raw_fp(k) > 6][:4]
+    case.desc = dict(cfg.desc(), kind="fingerprints as small as bin counts")
+    rngscript.start([], fallback=_stdrandom.Random(rng.getrandbits(32)))
+    try:
+        f = cfg.make(P)
+        out = Counter()
+        steps = []
+        for j in others:
+            steps += [("add", j)] * rng.randint(1, 5)
+        rng.shuffle(steps)
+        steps += [("add", small[fp]) for fp in rng.sample(sorted(small), rng.randint(2, 5))]
+        steps += [("remove", rng.choice(list(small.values()) + others)) for _ in range(6)] + [("add", rng.choice(list(small.values()))) for _ in range(3)]
+        for i, (op, k) in enumerate(steps):
+            try:
+                if op == "add":
+                    f.add(k)
+                    out[cfg.raw_fp(k)] += 1
+                elif out[cfg.raw_fp(k)] > 0:
+                    f.remove(k)
+                    out[cfg.raw_fp(k)] -= 1
+            except Exception as e:
+                if type(e).__name__ != "CuckooFilterFullError":
+                    raise
+                continue
+            for kx in others + list(small.values()):
+                ctx.counters["oracle_evaluations"] += 1
+                if out[cfg.raw_fp(kx)] > 0 and not f.check(kx):
+                    ctx.fail(f"a key whose fingerprint was added and not removed is reported absent after step {i} ({op} {k!r}) in a bucket where fingerprints are as small as counts",
+                             key=kx, fingerprint=cfg.raw_fp(kx), outstanding=out[cfg.raw_fp(kx)])
+        ctx.count("probes")
+        ctx.count("resolutions_executed")
+        ctx.count("small_fingerprint_cases")
+    finally:
+        rngscript.stop()
+    case.nontrivial = True
+
+
 def wl_after_refusals(ctx, rng, case):
     """life goes on after refused calls: a crowded auto-expanding table whose expansions are refused (non-growing rate, or too few swaps), with
     keys added more than once; then the rate is raised, most keys are removed again completely, the table is expanded explicitly and refilled.
@@ -449,6 +501,7 @@ PROP = Prop(
         Workload("crowd", wl_crowd, quick=16, thorough=320),
         Workload("big_crowded", wl_big_crowded, quick=12, thorough=120),
         Workload("expand_sweep", wl_expand_sweep, quick=97, thorough=97),
+        Workload("small_fingerprints", wl_small_fingerprints, quick=30, thorough=600),
         Workload("after_refusals", wl_after_refusals, quick=100, thorough=1500),
     ],
     assumptions=["fingerprint model uses an independent FNV-1a (ASCII/bytes keys); keys whose raw fingerprint is 0 (the empty-slot marker) appear only in the zero_fingerprint workload, whose histories contain no removals (how 0 is remapped is the library's choice)",
